@@ -1274,8 +1274,15 @@ def suite_server(ctx, exe, n):
             segs = segments(rng, wire)
             rec = {"chunks": [], "result": None, "peak_total": 0}
             bufsize = rng.choice([16, 256, 4096, 2 ** 16])
+            # graceful shutdown (Server.pre_shutdown() -> RequestHandler.close()) while the handler is reading the
+            # body: the request being handled must still get the rest of its body, including input the paused
+            # parser / decompressor already holds (it is pushed by resume_reading() -> data_received(b"")).
+            close_at = rng.randrange(len(segs) + 1) if rng.random() < 0.2 else None
+            # ... or from inside the handler, after its k-th readany() (everything may have been delivered by then)
+            close_after_reads = rng.choice([1, 1, 2, 3, 5]) if close_at is None and rng.random() < 0.3 else None
+            closed_mid = [False]
 
-            async def handler(request, rec=rec):
+            async def handler(request, rec=rec, close_after_reads=close_after_reads, closed_mid=closed_mid):
                 payload = request.content
                 orig = payload.readany
 
@@ -1283,6 +1290,9 @@ def suite_server(ctx, exe, n):
                     c = await orig()
                     if rec["result"] is None:      # later calls are the server draining the unread body
                         rec["chunks"].append(bytes(c))
+                        if close_after_reads is not None and len(rec["chunks"]) == close_after_reads and not closed_mid[0]:
+                            request.protocol.close()
+                            closed_mid[0] = True
                     return c
                 payload.readany = readany
                 try:
@@ -1300,7 +1310,18 @@ def suite_server(ctx, exe, n):
                 runner, connect = await start_server(app, loop, read_bufsize=bufsize)
                 proto, tr = connect()
                 proto.data_received(head)
-                for s in segs:
+
+                async def shutdown_now():
+                    for _ in range(3):
+                        if proto._current_request is not None:
+                            break
+                        await asyncio.sleep(0)
+                    if proto._current_request is not None and not tr.closed:
+                        proto.close()
+                        closed_mid[0] = True
+                for i, s in enumerate(segs):
+                    if close_at == i:
+                        await shutdown_now()
                     for _ in range(200):
                         if tr.reading:
                             break
@@ -1310,6 +1331,8 @@ def suite_server(ctx, exe, n):
                     proto.data_received(s)
                     for _ in range(rng.choice([0, 1, 3])):
                         await asyncio.sleep(0)
+                if close_at == len(segs):
+                    await shutdown_now()
                 for _ in range(400):
                     if rec["result"] is not None:
                         break
@@ -1319,7 +1342,8 @@ def suite_server(ctx, exe, n):
                 await asyncio.sleep(0)
                 await runner.cleanup()
                 return out
-            case = {"suite": "server", "cms": cms, "bufsize": bufsize, "enc": enc, "plain_len": len(plain), "chunked": chunked, "body": body.hex()}
+            case = {"suite": "server", "cms": cms, "bufsize": bufsize, "enc": enc, "plain_len": len(plain), "chunked": chunked, "body": body.hex(),
+                    "segs": [len(x) for x in segs], "shutdown_before_seg": close_at, "shutdown_after_reads": close_after_reads}
             try:
                 resp = loop.run_until_complete(asyncio.wait_for(go(), 600))
             except Exception as e:  # noqa
@@ -1329,9 +1353,11 @@ def suite_server(ctx, exe, n):
             res = rec["result"]
             ctx.case((cms, enc, len(plain), res and res[0]), nontrivial=bool(res and res[0] == "ok" and res[1]))
             ctx.count("server:" + (res[0] if res else "noresult"))
+            ctx.count("server:shutdown_mid_body:" + ("yes" if closed_mid[0] else "no"))
             too_big = cms and len(plain) > cms
             if res is None:
-                ctx.violation(dict(case, kind="server_stuck"), "server_stuck: request.read() never returned for a complete request body")
+                ctx.violation(dict(case, kind="server_stuck"), "server_stuck: request.read() never returned for a complete request body"
+                              + (" (graceful shutdown began while the handler was reading it)" if closed_mid[0] else ""))
                 continue
             if res[0] == "ok":
                 if too_big:
@@ -1376,7 +1402,7 @@ def run(ctx):
     import time
     for name, fn, args in (("handler", suite_handler, (exe, 400 if q else 6000)), ("glue", suite_glue, (exe, 900 if q else 20000)),
                            ("real", suite_real, (220 if q else 5000,)), ("laws", suite_laws, (250 if q else 5000,)),
-                           ("server", suite_server, (exe, 60 if q else 1200))):
+                           ("server", suite_server, (exe, 150 if q else 1500))):
         t0 = time.time()
         if name == "handler" and exe is None:
             continue
